@@ -386,24 +386,29 @@ def reverseComplement (m : Msa) : Res :=
 
 /-! ## esl_msa_FlushLeftInserts -/
 
-/-- one row; `a` and `b` are the C loop variables (1-based); the row is `ax[i][1..alen]`.
-    `for (a = 1, b = 1; a <= alen; a++) {...}` then `for (; b <= alen; b++) ax[b] = gap` -/
-def flushRowGo (abc : Abc) (rf : Bytes) (alen : Nat) : (fuel a b : Nat) → Bytes → Bytes
-  | 0, _, b, row => (row.take (b-1)) ++ List.replicate (alen + 1 - b) abc.xGap ++ row.drop alen
-  | fuel+1, a, b, row =>
-    if !abc.cIsGap (rf.getD (a-1) 0) then
-      -- consensus column: catch b up to a with gaps, then copy
-      let row := (row.take (b-1)) ++ List.replicate (a - b) abc.xGap ++ row.drop (a-1)
-      let b := if b < a then a else b
-      flushRowGo abc rf alen fuel (a+1) (b+1) (row.set (b-1) (row.getD (a-1) 0))
-    else if abc.xIsGap (row.getD (a-1) 0) then flushRowGo abc rf alen fuel (a+1) b row
-    else flushRowGo abc rf alen fuel (a+1) (b+1) (row.set (b-1) (row.getD (a-1) 0))
+/-- one row of `for (a = 1, b = 1; a <= alen; a++) {...}`. `a` = columns consumed so far, `out` = `ax[i][1..b-1]`, the part
+    already written. The C loop writes in place, but `b <= a` throughout, so a write never lands on a cell that has
+    not been read yet; the loop is therefore modelled as producing `out` left to right:
+    consensus column: `for (; b < a; b++) ax[b] = gap;` then `ax[b++] = ax[a]`; insert column: skip a gap, else
+    `ax[b++] = ax[a]`. -/
+def flushGo (abc : Abc) : (rf row : Bytes) → (a : Nat) → (out : Bytes) → Bytes
+  | [], _, _, out => out
+  | _ :: _, [], _, out => out
+  | rfc :: rf, x :: row, a, out =>
+    if !abc.cIsGap rfc then flushGo abc rf row (a+1) (out ++ List.replicate (a - out.length) abc.xGap ++ [x])
+    else if abc.xIsGap x then flushGo abc rf row (a+1) out
+    else flushGo abc rf row (a+1) (out ++ [x])
+
+/-- ... and finally `for (; b <= alen; b++) ax[b] = gap` -/
+def flushRow (abc : Abc) (rf : Bytes) (alen : Nat) (row : Bytes) : Bytes :=
+  let out := flushGo abc (rf.take alen) (row.take alen) 0 []
+  out ++ List.replicate (alen - out.length) abc.xGap
 
 def flushLeftInserts (m : Msa) : Res :=
   match m.rf, m.abc with
   | none, _ => { msa := m, st := .einval, exc := true }
   | some _, none => { msa := m, st := .fault }
-  | some rf, some a => { msa := { m with rows := m.rows.map (flushRowGo a rf m.alen m.alen 1 1) }, st := .ok }
+  | some rf, some a => { msa := { m with rows := m.rows.map (flushRow a rf m.alen) }, st := .ok }
 
 /-! ## MarkFragments -/
 
@@ -422,11 +427,14 @@ def markFragments (m : Msa) (minspan : Int) : List Bool :=
     let rpos : Int := lastIdx1 isRes r              -- 1-based; 0 if none
     decide (rpos - lpos + 1 < minspan)
 
+/-- `for (pos = first; ...; pos++) { if (is_residue(x[pos])) break; x[pos] = missing; }` -/
+def maskLead (isRes : UInt8 → Bool) (miss : UInt8) : Bytes → Bytes
+  | [] => []
+  | c :: rest => if isRes c then c :: rest else miss :: maskLead isRes miss rest
+
+/-- the forward loop, then the same loop from the right end -/
 def maskEnds (isRes : UInt8 → Bool) (miss : UInt8) (r : Bytes) : Bytes :=
-  let l := firstIdx isRes r
-  let k := lastIdx1 isRes r
-  if l == r.length then r.map (fun _ => miss)
-  else List.replicate l miss ++ (r.take k).drop l ++ List.replicate (r.length - k) miss
+  (maskLead isRes miss (maskLead isRes miss r).reverse).reverse
 
 /-- `esl_msa_MarkFragments_old`: `isFrag i` is the caller's evaluation of `rlen <= fragthresh * alen` in binary64 -/
 def rawLen (m : Msa) (r : Bytes) : Nat :=
@@ -434,11 +442,15 @@ def rawLen (m : Msa) (r : Bytes) : Nat :=
   | some a => if m.isDigital then (r.filter a.xIsResidue).length else ((r.take m.alen).filter isAlnum).length
   | none => ((r.take m.alen).filter isAlnum).length
 
+/-- what `esl_msa_MarkFragments_old` calls a residue, and the symbol it writes: `esl_abc_XIsResidue` / the alphabet's
+    missing-data code in digital mode, `isalnum` / `'~'` in text mode -/
+def fragSyms (m : Msa) : (UInt8 → Bool) × UInt8 :=
+  match m.abc with
+  | some a => if m.isDigital then (a.xIsResidue, a.xMissing) else (isAlnum, 0x7e)
+  | none => (isAlnum, 0x7e)
+
 def markFragmentsOld (m : Msa) (isFrag : Nat → Bool) : Msa :=
-  let (isRes, miss) : (UInt8 → Bool) × UInt8 := match m.abc with
-    | some a => if m.isDigital then (a.xIsResidue, a.xMissing) else (isAlnum, 0x7e)
-    | none => (isAlnum, 0x7e)
-  { m with rows := m.rows.map fun r => if isFrag (rawLen m r) then maskEnds isRes miss r else r }
+  { m with rows := m.rows.map fun r => if isFrag (rawLen m r) then maskEnds (fragSyms m).1 (fragSyms m).2 r else r }
 
 /-! ## esl_msa_Validate -/
 
